@@ -370,7 +370,9 @@ def jit(
     device=device,
     backend=backend,
     inline=inline,
-    abstracted_axes=abstracted_axes,
+    # ``abstracted_axes`` was removed from ``jax.jit`` in newer JAX versions,
+    # only forward it when the user actually set it.
+    **({} if abstracted_axes is None else {'abstracted_axes': abstracted_axes}),
   )
 
   jit_wrapper.inner = jitted_fn  # type: ignore
